@@ -451,17 +451,17 @@ def run(ctx):
                                "share of the covered duration (max_take 100 over [Jan 6, Jan 16) on a horizon ending Jan 11: 100 instead of 50)"
                                % au.short(grid[0], 40) if grid else "the origin of the denominator was not recognised", node=d,
                                ok_detail="calendar length of the period")
-    ctx.require(n_f >= 1, "the proration sum over covered steps (define_restr) was not found")
+    ctx.require(n_f >= 1, "the proration sum over covered steps (define_restr) was not found", rules=['C08.f', 'C08.g'])
 
     # ---------------------------------------------------------------- anchors that must not pass vacuously
     helper = [f for f in p.all_functions() if f.qualname.endswith("__extend_mapping_to_minor_grid__")]
-    ctx.require(bool(helper), "the minor-grid extension helper vanished")
+    ctx.require(bool(helper), "the minor-grid extension helper vanished", rules=['C13.b'])
     ctx.ob("C13.b", helper[0], "restricted-grid arrays addressed by position", True,
            ok_detail="%d typed subscript(s), none with a variable label" % counts.get("C13.b", 0), trivial=True)
     pfn = p.fn_opt("Portfolio.setup_optim_problem")
-    ctx.require(pfn is not None, "Portfolio.setup_optim_problem vanished")
+    ctx.require(pfn is not None, "Portfolio.setup_optim_problem vanished", rules=['C15.a', 'C15.f'])
     fix_if = [s2 for s2 in au.walk_stmts(pfn.body) if isinstance(s2, ast.If) and "fix_time_window" in au.names_in(s2.test)]
-    ctx.require(bool(fix_if), "the fix_time_window branch of Portfolio.setup_optim_problem vanished")
+    ctx.require(bool(fix_if), "the fix_time_window branch of Portfolio.setup_optim_problem vanished", rules=['C15.a', 'C15.f'])
     pfn_roles = local_roles(pfn)
     pins = [s2 for s2 in au.walk_stmts(fix_if[0].body) if isinstance(s2, ast.Assign) and isinstance(s2.targets[0], ast.Subscript)
             and role(s2.targets[0].value, pfn_roles) in ("l", "u")]
@@ -495,7 +495,7 @@ def run(ctx):
 
     # ---------------------------------------------------------------- C04.a structural part of Asset.dcf
     dcf = p.cls("Asset").methods.get("dcf")
-    ctx.require(dcf is not None, "Asset.dcf vanished")
+    ctx.require(dcf is not None, "Asset.dcf vanished", rules=['C04.a'])
     txt_nodes = list(au.walk_local(dcf.node))
     filt = any(isinstance(n, ast.Compare) and any(isinstance(s, ast.Subscript) and au.const_str(s.slice) == "asset" for s in [n.left] + n.comparators)
                and any(au.path(s) == "self.name" for s in [n.left] + n.comparators) for n in txt_nodes)
